@@ -1,17 +1,17 @@
 #!/bin/bash
-# round_auto.sh <round> <prop>... : for each property: confirm /tmp/mut5/out<round>_<prop>/m* (in the background), run the
+# round_auto.sh <round> <prop>... : for each property: confirm /tmp/mut${R}/out<round>_<prop>/m* (in the background), run the
 # property's check against each, and archive the ones that are confirmed AND caught at first run.  Prints one line each;
 # missed or unconfirmed changes are left for manual treatment.
 R=$1; shift
 cd /verif
-for p in "$@"; do for m in /tmp/mut5/out${R}_$p/m?; do [ -f $m/patch.diff ] && [ ! -f $m.verify ] && (tools/verify_mutation.sh $m > $m.verify 2>&1 &); done; done
-for p in "$@"; do for m in /tmp/mut5/out${R}_$p/m?; do
+for p in "$@"; do for m in /tmp/mut${R}/out${R}_$p/m?; do [ -f $m/patch.diff ] && [ ! -f $m.verify ] && (tools/verify_mutation.sh $m > $m.verify 2>&1 &); done; done
+for p in "$@"; do for m in /tmp/mut${R}/out${R}_$p/m?; do
   [ -f $m/patch.diff ] || continue
   tools/try_mutation.sh $m $p > $m.try 2>&1
   cat $m.try | tail -4
 done; done
 # wait for the confirmations
-for p in "$@"; do for m in /tmp/mut5/out${R}_$p/m?; do
+for p in "$@"; do for m in /tmp/mut${R}/out${R}_$p/m?; do
   [ -f $m/patch.diff ] || continue
   for i in $(seq 1 120); do grep -q 'confirmed=' $m.verify 2>/dev/null && break; sleep 10; done
   v=$(grep -o 'confirmed=[A-Z]*' $m.verify | head -1)
